@@ -37,6 +37,8 @@ def run(tier):
     recs = M.gen_pairs(ctx, 3, 3, 4, "Gen_Schema_33") if q else M.gen_pairs(ctx, 4, 3, 4, "Gen_Schema_43")
     # three declared keys with nested objects, text providing subsets in both orders plus an undeclared key
     recs += M.gen_pairs(ctx, 2, 2, 4, "Gen_Schema_wide3", smode="wide3", layv=0 if q else 2)
+    # an object nested in a declared member with members updated in place or rebuilt, followed / preceded by a declared member
+    recs += M.gen_pairs(ctx, 2, 2, 4, "Gen_Schema_nest2", smode="nest2")
     recs += M.gen_pairs(ctx, 3, 2, 4, "Gen_Schema_32_ws", laye=2, layv=3)            # whitespace layouts
     rows = [[str(i), hexs(r["e"]), hexs(r["v"]), T.canon(r["schema"]), T.canon(r["schema2"])] for i, r in enumerate(recs)]
     # leak detection off here: the leak of the previous schema buffer on repeated ParseSchema is a C13 matter
